@@ -119,7 +119,10 @@ def is_missing(x):
 def _norm(x):
     """Bring NumPy scalars to Python values with an ordinary == ."""
     if isinstance(x, np.datetime64):
-        # compare datetimes as (unit-independent) microsecond instants where possible
+        # compare datetimes as (unit-independent) microsecond instants where possible; nanosecond values keep their
+        # own resolution (a value that lost its sub-microsecond part is another value)
+        if np.datetime_data(x.dtype)[0] == "ns" and not np.isnat(x):
+            return ("dt-ns", x.astype("int64").item())
         try:
             return ("dt", x.astype("datetime64[us]").astype("int64").item())
         except Exception:
@@ -190,6 +193,11 @@ DATETIME_NS = Palette("datetime/ns", "datetime",
                       [np.datetime64("1700-01-01T00:00:00", "ns"), np.datetime64("1969-12-31T23:59:59.999999", "ns"),
                        np.datetime64("1970-01-01T00:00:00", "ns"), np.datetime64("2262-01-01T00:00:00", "ns")],
                       na=np.datetime64("NaT"), as_array=True, full_dtype="datetime64[ns]")
+# four instants inside one microsecond
+DATETIME_NS_FINE = Palette("datetime/ns-fine", "datetime",
+                           [np.datetime64("2000-01-01T00:00:00.000000001", "ns"), np.datetime64("2000-01-01T00:00:00.000000002", "ns"),
+                            np.datetime64("2000-01-01T00:00:00.000000500", "ns"), np.datetime64("2000-01-01T00:00:00.000000999", "ns")],
+                           na=np.datetime64("NaT"), as_array=True, full_dtype="datetime64[ns]")
 TIMEDELTA = Palette("timedelta", "timedelta",
                     [np.timedelta64(-5, "s"), np.timedelta64(0, "s"), np.timedelta64(3, "s"), np.timedelta64(10**9, "s")],
                     na=np.timedelta64("NaT"), as_array=True, full_dtype="timedelta64[s]")
@@ -200,7 +208,7 @@ OBJ_INT = Palette("obj/int", "obj", [-10, 9, 100, 1000], na=None, dtype=object)
 
 ALL = [FLOAT_INF, FLOAT_BIG, FLOAT_HUGE, FLOAT_HASH, INT_SMALL, INT_BIG, INT_HASH, UINT8, STR_SHORT, STR_LONG, STR_MIXED, STR_FIXED,
        STR_ASTRAL, BOOL, DATE, DATETIME, TIMEDELTA, BYTES, OBJ_INT]
-BY_NAME = {p.name: p for p in ALL + [BOOL_OBJ, DATETIME_NS]}
+BY_NAME = {p.name: p for p in ALL + [BOOL_OBJ, DATETIME_NS, DATETIME_NS_FINE]}
 
 
 def render(x):
